@@ -63,6 +63,9 @@ def _setup(path_dir):
 def _job(args):
     variant, sname, sched, d, noreopen = args[:5]
     style = args[5] if len(args) > 5 else "index"
+    topology = "flat"
+    if style.endswith("@chain"):
+        style, topology = style[:-6], "chain"
     f, path, offs = _CTX.get("setup") or _CTX.setdefault("setup", _setup(d))
     how = dict(STYLES[style])
     if variant == "map":
@@ -125,18 +128,18 @@ def _job(args):
                     reference[key] = repr(ref_obj[key])
     ref_obj.close()
     state.clear()
-    r = forkbaton.run_schedule(make, access, scripts, sched)
+    r = forkbaton.run_schedule(make, access, scripts, sched, topology=topology)
     if not r["completed"]:
         # a loaded machine can starve the processes: one retry with a generous watchdog before it is believed
         state.clear()
-        r = forkbaton.run_schedule(make, access, scripts, sched, timeout=60.0)
+        r = forkbaton.run_schedule(make, access, scripts, sched, timeout=60.0, topology=topology)
     bad = []
     for p, keys in scripts.items():
         for k, key in enumerate(keys):
             got = r["values"][p][k]
             if got != ("ok", reference[key]):
                 bad.append({"proc": p, "access": k, "wanted_line": key, "got": got})
-    return {"variant": variant, "scripts": sname, "style": style, "wanted": scripts, "schedule": sched, "bad": bad, "completed": r["completed"],
+    return {"variant": variant, "scripts": sname, "style": style + ("@chain" if topology == "chain" else ""), "wanted": scripts, "schedule": sched, "bad": bad, "completed": r["completed"],
             "followed": r["followed"], "extra_steps": r["extra_steps"]}
 
 
@@ -172,6 +175,12 @@ def run(ctx):
         for variant in ("buffered", "mmap", "map"):
             jobs += [(variant, "S3a", s, d, False, style) for s in s3a]
             jobs += [(variant, "S3b", s, d, False, style) for s in rnd.sample(s3b, 60 if quick else 2000)]
+    # descendants of any depth: process p is forked by process p-1 (the parent of a reader is not always the process that opened the file)
+    for style in ("index@chain", "open2@chain", "preread@chain"):
+        for variant in ("buffered", "mmap", "map"):
+            jobs += [(variant, "S3a", s, d, False, style) for s in s3a]
+            jobs += [(variant, "S3b", s, d, False, style) for s in rnd.sample(s3b, 60 if quick else 2000)]
+    jobs += [("buffered", "S4", s, d, False, "index@chain") for s in rnd.sample(s4, 100 if quick else 2000)]
     # randomised uses: wanted lines (often adjacent ones) and reads the parent does before forking, on TLC's schedules
     shapes = {"S3a": (s3a, 1), "S3b": (s3b, 2)}
     for _ in range(300 if quick else 6000):
@@ -182,7 +191,7 @@ def run(ctx):
         scripts = {str(p): [pick() for _ in range(n)] for p in (0, 1, 2)}
         spec = {"scripts": scripts, "prereads": [min(11, max(0, base + rnd.choice([-1, 0, 1]))) for _ in range(rnd.randint(0, 2))]}
         jobs.append((rnd.choice(["buffered", "buffered", "map", "mmap"]), sname, rnd.choice(scheds), d, False,
-                     rnd.choice(["index", "index", "open2"]), spec))
+                     rnd.choice(["index", "index", "open2", "index@chain"]), spec))
     negjobs = [("buffered", "S3a", s, d, True) for s in s3a]
     try:
         with ProcessPoolExecutor(max_workers=16) as ex:
